@@ -50,6 +50,122 @@ enum Op {
     PathForId(String),
     BuilderAddResource(String),
     Retarget { link: String, target: String },
+    /// Reader::to_folder of a signed asset whose manifest / assertion label was replaced by a
+    /// hostile string of the same length (kind 0 = untouched); `plant` = a symlink waiting in
+    /// the export folder under the name the manifest label maps to
+    ToFolder { kind: u64, plant: bool },
+    /// Builder::with_archive of a ZIP archive whose manifest.json carries a base_path and whose
+    /// resource entries are named by traversal identifiers
+    ArchiveImport { id: String, base: u64 },
+    /// sign with base path = root and a definition whose thumbnail identifier is `id`
+    SignRef { id: String, ingredient: bool },
+}
+
+/// ZIP with stored (uncompressed) entries
+fn zip_stored(entries: &[(String, Vec<u8>)]) -> Vec<u8> {
+    let mut out = Vec::new();
+    let mut central = Vec::new();
+    for (name, data) in entries {
+        let off = out.len() as u32;
+        let crc = crate::assets::crc32(data);
+        let mut h = Vec::new();
+        h.extend_from_slice(&[0x50, 0x4b, 0x03, 0x04, 20, 0, 0, 0, 0, 0, 0, 0, 0x21, 0]);
+        h.extend_from_slice(&crc.to_le_bytes());
+        h.extend_from_slice(&(data.len() as u32).to_le_bytes());
+        h.extend_from_slice(&(data.len() as u32).to_le_bytes());
+        h.extend_from_slice(&(name.len() as u16).to_le_bytes());
+        h.extend_from_slice(&[0, 0]);
+        h.extend_from_slice(name.as_bytes());
+        out.extend_from_slice(&h);
+        out.extend_from_slice(data);
+        central.extend_from_slice(&[0x50, 0x4b, 0x01, 0x02, 20, 0, 20, 0, 0, 0, 0, 0, 0, 0, 0x21, 0]);
+        central.extend_from_slice(&crc.to_le_bytes());
+        central.extend_from_slice(&(data.len() as u32).to_le_bytes());
+        central.extend_from_slice(&(data.len() as u32).to_le_bytes());
+        central.extend_from_slice(&(name.len() as u16).to_le_bytes());
+        central.extend_from_slice(&[0, 0, 0, 0, 0, 0, 0, 0, 0, 0, 0, 0]);
+        central.extend_from_slice(&off.to_le_bytes());
+        central.extend_from_slice(name.as_bytes());
+    }
+    let cd_off = out.len() as u32;
+    out.extend_from_slice(&central);
+    out.extend_from_slice(&[0x50, 0x4b, 0x05, 0x06, 0, 0, 0, 0]);
+    out.extend_from_slice(&(entries.len() as u16).to_le_bytes());
+    out.extend_from_slice(&(entries.len() as u16).to_le_bytes());
+    out.extend_from_slice(&(central.len() as u32).to_le_bytes());
+    out.extend_from_slice(&cd_off.to_le_bytes());
+    out.extend_from_slice(&[0, 0]);
+    out
+}
+
+fn replace_all(hay: &[u8], from: &[u8], to: &[u8]) -> Vec<u8> {
+    let mut o = Vec::with_capacity(hay.len());
+    let mut i = 0;
+    while i < hay.len() {
+        if hay[i..].starts_with(from) {
+            o.extend_from_slice(to);
+            i += from.len();
+        } else {
+            o.push(hay[i]);
+            i += 1;
+        }
+    }
+    o
+}
+
+fn jbox(typ: &[u8; 4], payload: &[u8]) -> Vec<u8> {
+    let mut v = ((payload.len() + 8) as u32).to_be_bytes().to_vec();
+    v.extend_from_slice(typ);
+    v.extend_from_slice(payload);
+    v
+}
+
+fn jumd(uuid_hex: &str, label: &str) -> Vec<u8> {
+    let mut p = hex::decode(uuid_hex).unwrap_or_default();
+    p.push(0x03);
+    p.extend_from_slice(label.as_bytes());
+    p.push(0);
+    jbox(b"jumd", &p)
+}
+
+/// `store` with a data-box store holding one data box labelled `label` appended to its last manifest
+fn add_databox(store: &[u8], label: &str) -> Option<Vec<u8>> {
+    let top = crate::jumbf::parse(store);
+    let m = top.first()?.children.iter().filter(|c| &c.typ == b"jumb").last()?;
+    let last = m.children.last()?;
+    let mut cbor = vec![0xA2, 0x69];
+    cbor.extend_from_slice(b"dc:format");
+    cbor.push(0x6A);
+    cbor.extend_from_slice(b"text/plain");
+    cbor.push(0x64);
+    cbor.extend_from_slice(b"data");
+    cbor.push(0x45);
+    cbor.extend_from_slice(b"pwned");
+    let mut db = jumd("63626F7200110010800000AA00389B71", label);
+    db.extend_from_slice(&jbox(b"cbor", &cbor));
+    let mut dbs = jumd("6332646200110010800000AA00389B71", "c2pa.databoxes");
+    dbs.extend_from_slice(&jbox(b"jumb", &db));
+    let add = jbox(b"jumb", &dbs);
+    crate::jumbf::splice(store, last.end, 0, &add, (last.start, last.end))
+}
+
+/// a JPEG signed with an in-memory thumbnail (a binary assertion for to_folder to export)
+fn signed_with_thumbnail() -> Vec<u8> {
+    let ctx = std::sync::Arc::new(sdk::make_context(&json!({})));
+    c2pa::verif::set_random_seed(Some(0xC29));
+    let asset = crate::assets::generate(crate::assets::Fmt::Jpeg, &mut Rng::new(0xC29));
+    let mut def = sdk::simple_definition("c29");
+    def["thumbnail"] = json!({"format": "image/jpeg", "identifier": "t.jpg"});
+    let Ok(mut b) = c2pa::Builder::from_shared_context(&ctx).with_definition(def) else { return Vec::new() };
+    if b.add_resource("t.jpg", std::io::Cursor::new(asset.clone())).is_err() {
+        return Vec::new();
+    }
+    let signer = sdk::make_signer("ed25519");
+    let mut d = std::io::Cursor::new(Vec::new());
+    match b.sign(signer.as_ref(), "image/jpeg", &mut std::io::Cursor::new(asset), &mut d) {
+        Ok(_) => d.into_inner(),
+        Err(_) => Vec::new(),
+    }
 }
 
 const SENTINEL: &str = "SENTINEL-OUTSIDE-";
@@ -137,18 +253,23 @@ impl Property for C29 {
             let id = ids(&mut r);
             let t = r.pick(&targets).1.clone();
             let l = r.pick(&link_names).to_string();
-            ops.push(match r.below(13) {
+            let (k2, flag) = (r.below(8), r.chance(1, 4));
+            ops.push(match r.below(17) {
                 0..=2 => Op::Add(id),
                 3..=4 => Op::Get(id),
                 5..=6 => Op::Exists(id),
                 7 => Op::WriteStream(id),
                 8..=9 => Op::PathForId(id),
                 10 => Op::BuilderAddResource(id),
-                _ => Op::Retarget { link: l, target: t },
+                11..=12 => Op::Retarget { link: l, target: t },
+                13 => Op::ToFolder { kind: k2, plant: flag },
+                14 => Op::ArchiveImport { id, base: k2 % 3 },
+                _ => Op::SignRef { id, ingredient: flag },
             });
         }
         out.n_ops = ops.len();
         let mask = rc.mask.clone().unwrap_or_else(|| vec![true; ops.len()]);
+        let thumb_signed = rc.artefact("thumb_signed", signed_with_thumbnail);
         let before = snapshot(&outside);
         let canon_root = std::fs::canonicalize(&root).unwrap_or(root.clone());
         let mut store = ResourceStore::new();
@@ -170,12 +291,15 @@ impl Property for C29 {
             trace.push(format!("{op:?}"));
             let nontrivial = match op {
                 Op::Retarget { .. } => true,
-                Op::Add(id) | Op::Get(id) | Op::Exists(id) | Op::WriteStream(id) | Op::PathForId(id) | Op::BuilderAddResource(id) => id.contains("l_") || id.contains("..") || id.starts_with('/') || id.contains('%') || id.contains('\\'),
+                Op::ToFolder { kind, plant } => *kind > 0 || *plant,
+                Op::Add(id) | Op::Get(id) | Op::Exists(id) | Op::WriteStream(id) | Op::PathForId(id) | Op::BuilderAddResource(id) | Op::ArchiveImport { id, .. } | Op::SignRef { id, .. } => id.contains("l_") || id.contains("..") || id.starts_with('/') || id.contains('%') || id.contains('\\'),
             };
             if nontrivial {
                 out.keys.push(hash_str(&format!("{}|{trace:?}", rc.idx)));
             }
             let mut returned: Vec<u8> = Vec::new();
+            let export_prefix = format!("export{i}");
+            let root_before = if matches!(op, Op::ToFolder { .. }) { Some(snapshot(&root)) } else { None };
             let res = sdk::guarded(|| match op {
                 Op::Add(id) => {
                     let _ = store.add(id.clone(), b"payload-from-sdk".to_vec());
@@ -207,6 +331,113 @@ impl Property for C29 {
                     b.set_base_path(&root);
                     let _ = b.add_resource(id, std::io::Cursor::new(b"payload-from-builder".to_vec()));
                 }
+                Op::ToFolder { kind, plant } => {
+                    let dest = root.join(format!("export{i}"));
+                    let ctx = std::sync::Arc::new(sdk::make_context(&json!({})));
+                    let ml = c2pa::Reader::from_shared_context(&ctx)
+                        .with_stream("image/jpeg", std::io::Cursor::new(thumb_signed.clone()))
+                        .ok()
+                        .and_then(|r| r.active_label().map(|s| s.to_string()))
+                        .unwrap_or_default();
+                    if ml.is_empty() {
+                        returned = b"TOFOLDER-NO-LABEL".to_vec();
+                        return;
+                    }
+                    let out_abs = format!("{}/pwned", outside.to_string_lossy());
+                    let hostile: Option<String> = match kind {
+                        0 => None,
+                        1 => Some("../../../../outside/pwned".into()),
+                        2 => Some("..//..//..//..//outside//pwned".into()),
+                        3 => Some(out_abs),
+                        4 => Some("x/../../../../../outside/pwned".into()),
+                        5 => Some("../../../sub/pwned".into()),
+                        6 => Some("./../.././../../outside/deep/pwned".into()),
+                        _ => Some("../../../../outside/deep/key.pem".into()),
+                    };
+                    let (bytes, fmt) = match &hostile {
+                        None => (thumb_signed.clone(), "image/jpeg"),
+                        Some(h) => {
+                            // the store on its own, with a data box named `h` added to the active manifest
+                            let store = c2pa::jumbf_io::load_jumbf_from_memory("image/jpeg", &thumb_signed).unwrap_or_default();
+                            match add_databox(&store, h) {
+                                Some(s) => (s, "application/c2pa"),
+                                None => {
+                                    returned = b"TOFOLDER-NOT-BUILT".to_vec();
+                                    return;
+                                }
+                            }
+                        }
+                    };
+                    if *plant {
+                        // a link waiting where the (sanitised) manifest label will be created
+                        let _ = std::fs::create_dir_all(&dest);
+                        let name = if *kind == 0 { ml.replace(':', "_") } else { "planted".to_string() };
+                        let _ = std::os::unix::fs::symlink("../../outside/deep", dest.join(name));
+                    }
+                    match c2pa::Reader::from_shared_context(&ctx).with_stream(fmt, std::io::Cursor::new(bytes)) {
+                        Err(e) => {
+                            if std::env::var("VERIF_DEBUG").is_ok() {
+                                eprintln!("to_folder kind {kind}: read error {}", format!("{e:?}").chars().take(200).collect::<String>());
+                            }
+                            returned = b"TOFOLDER-READ-ERR".to_vec()
+                        }
+                        Ok(rd) => {
+                            returned = match rd.to_folder(&dest) {
+                                Ok(()) => b"TOFOLDER-OK".to_vec(),
+                                Err(_) => b"TOFOLDER-ERR".to_vec(),
+                            }
+                        }
+                    }
+                }
+                Op::ArchiveImport { id, base } => {
+                    let base_path = match base {
+                        0 => root.to_string_lossy().to_string(),
+                        1 => "/".to_string(),
+                        _ => outside.to_string_lossy().to_string(),
+                    };
+                    let manifest = json!({
+                        "title": "archived", "format": "image/jpeg",
+                        "claim_generator_info": [{"name": "c2pasim", "version": "1"}],
+                        "base_path": base_path,
+                        "resources": {"base_path": base_path, "resources": {}},
+                        "thumbnail": {"format": "text/plain", "identifier": id},
+                    });
+                    let z = zip_stored(&[
+                        ("manifest.json".to_string(), manifest.to_string().into_bytes()),
+                        (format!("resources/{id}"), b"payload-from-archive".to_vec()),
+                    ]);
+                    let ctx = std::sync::Arc::new(sdk::make_context(&json!({})));
+                    if let Ok(mut b) = c2pa::Builder::from_shared_context(&ctx).with_archive(std::io::Cursor::new(z)) {
+                        // what the imported builder would put into a manifest
+                        let asset = crate::assets::generate(crate::assets::Fmt::Jpeg, &mut Rng::new(7));
+                        b.set_no_embed(true);
+                        let signer = sdk::make_signer("ed25519");
+                        let mut d = std::io::Cursor::new(Vec::new());
+                        if let Ok(m) = b.sign(signer.as_ref(), "image/jpeg", &mut std::io::Cursor::new(asset), &mut d) {
+                            returned = m;
+                        }
+                    }
+                }
+                Op::SignRef { id, ingredient } => {
+                    let ctx = std::sync::Arc::new(sdk::make_context(&json!({})));
+                    let mut def = sdk::simple_definition("c29-ref");
+                    let t = json!({"format": "text/plain", "identifier": id});
+                    if *ingredient {
+                        def["ingredients"] = json!([{"title": "i", "format": "image/jpeg", "relationship": "componentOf", "thumbnail": t}]);
+                    } else {
+                        def["thumbnail"] = t;
+                    }
+                    if let Ok(mut b) = c2pa::Builder::from_shared_context(&ctx).with_definition(def) {
+                        b.set_base_path(&root);
+                        b.set_no_embed(true);
+                        let asset = crate::assets::generate(crate::assets::Fmt::Jpeg, &mut Rng::new(7));
+                        let signer = sdk::make_signer("ed25519");
+                        let mut d = std::io::Cursor::new(Vec::new());
+                        if let Ok(m) = b.sign(signer.as_ref(), "image/jpeg", &mut std::io::Cursor::new(asset), &mut d) {
+                            returned = m;
+                        }
+                    }
+                }
                 Op::Retarget { link, target } => {
                     let p = root.join(link);
                     if std::fs::symlink_metadata(&p).map(|m| m.file_type().is_symlink()).unwrap_or(false) {
@@ -227,7 +458,13 @@ impl Property for C29 {
                 Op::PathForId(_) => "path_for_id",
                 Op::BuilderAddResource(_) => "builder_add_resource",
                 Op::Retarget { .. } => "retarget",
+                Op::ToFolder { .. } => "to_folder",
+                Op::ArchiveImport { .. } => "archive_import",
+                Op::SignRef { .. } => "sign_with_resource_ref",
             };
+            if returned.starts_with(b"TOFOLDER-") {
+                out.probe(&String::from_utf8_lossy(&returned).to_lowercase());
+            }
             if returned == b"EXISTS-LEAK" {
                 out.violate(sub, "existence-leak:exists", "C29 never reveals the existence of a file outside the manifest root", json!({"history": trace}));
             } else if returned == b"PATH-LEAK" {
@@ -235,6 +472,16 @@ impl Property for C29 {
             } else if crate::jumbf::find_sub(&returned, SENTINEL.as_bytes()).is_some() {
                 out.violate(sub, &format!("read-outside-root:{opn}"), "C29 never reads a file whose real location is outside the manifest root",
                     json!({"history": trace, "returned": String::from_utf8_lossy(&returned)}));
+            }
+            if let Some(rb) = &root_before {
+                // an export may only create things below its own folder
+                let ra = snapshot(&root);
+                let changed: Vec<String> = ra.iter().filter(|(k, v)| !k.starts_with(&export_prefix) && rb.get(*k) != Some(v)).map(|(k, v)| format!("{k}: {v}")).collect();
+                if !changed.is_empty() {
+                    out.violate(sub, "write-outside-export-folder:to_folder", "C29 never exports a file whose real location is outside the target folder",
+                        json!({"history": trace, "changed_in_root_outside_export": changed}));
+                    break;
+                }
             }
             if !matches!(op, Op::Retarget { .. }) {
                 let after = snapshot(&outside);
